@@ -92,19 +92,20 @@ func (s *snap) brief() []string {
 
 // history drives one store and checks it
 type history struct {
-	run   *mon.Run
-	rng   *rand.Rand
-	store rueidis.CacheStore
-	max   int
-	specs []spec
-	base  time.Time
-	nowMS int64
-	clock int64
-	meta  map[ident]*meta
-	owned []ident // in-flight entries this driver must complete or cancel
-	prev  *snap
-	ops   []string // last operations, for witnesses
-	name  string
+	run     *mon.Run
+	rng     *rand.Rand
+	store   rueidis.CacheStore
+	max     int
+	specs   []spec
+	base    time.Time
+	nowMS   int64
+	clock   int64
+	meta    map[ident]*meta
+	owned   []ident // in-flight entries this driver must complete or cancel
+	prev    *snap
+	ops     []string // last operations, for witnesses
+	name    string
+	profile int // reply size mix, see payload()
 
 	hookSnap  *snap
 	hookCalls int
@@ -414,15 +415,42 @@ func (h *history) opDelete(all bool) {
 }
 
 func (h *history) payload() int {
-	// log-uniform between 1 B and 4*max, with a bias to sizes around max/4 (several evictions per insert)
-	hi := 4 * h.max
-	switch h.rng.Intn(10) {
+	// 1 B .. 4*max. The profile decides how many entries fit: with mostly small replies dozens of entries
+	// accumulate and one medium reply needs many evictions; with large replies the store holds one or two.
+	m := h.max
+	between := func(lo, hi int) int { return lo + h.rng.Intn(max(hi-lo, 0)+1) }
+	r := h.rng.Intn(100)
+	switch h.profile {
+	case 0: // many small
+		switch {
+		case r < 78:
+			return between(1, m/32+1)
+		case r < 94:
+			return between(m/32, m/4)
+		case r < 99:
+			return between(m/4, m)
+		}
+		return between(m, 4*m)
+	case 1: // mixed
+		switch {
+		case r < 45:
+			return between(1, m/16+1)
+		case r < 75:
+			return between(m/16, m/3)
+		case r < 92:
+			return between(m/3, m)
+		}
+		return between(m, 4*m)
+	}
+	// log-uniform between 1 B and 4*max
+	hi := 4 * m
+	switch r % 10 {
 	case 0:
 		return 1 + h.rng.Intn(8)
 	case 1:
-		return h.max + h.rng.Intn(3*h.max+1)
+		return between(m, hi)
 	case 2, 3:
-		return 1 + h.rng.Intn(h.max/2+1)
+		return between(1, m/2)
 	}
 	bits := 1
 	for 1<<bits < hi {
@@ -473,7 +501,7 @@ func (h *history) step() {
 
 func newHistory(run *mon.Run, rng *rand.Rand, name string, max, keys int) *history {
 	h := &history{run: run, rng: rng, name: name, max: max, store: rueidis.VerifNewLRU(max), specs: makeSpecs(rng, keys),
-		base: time.Unix(1_700_000_000, 0), meta: map[ident]*meta{}}
+		base: time.Unix(1_700_000_000, 0), meta: map[ident]*meta{}, profile: rng.Intn(3)}
 	h.prev = mkSnap(rueidis.VerifLRUSnapshot(h.store))
 	return h
 }
